@@ -13,9 +13,9 @@ EXPLANATION = (
     "SyntaxTreeNode is built from it."
 )
 BOUNDS = {
-    "quick": "pipeline FREE(3)+newline (js-default) and parseInline FREE(2); delimiter alphabet FREE(4); CTX scaffolds "
-             "(block: 2 free characters, inline: 1); nesting scaffolds with symbolic maxNesting 1..4",
-    "thorough": "pipeline FREE(4), parseInline FREE(3), delimiter alphabet FREE(5), CTX with 2 free characters everywhere, x {js-default, commonmark}",
+    "quick": "block unit FREE(3)(+newline) and pipeline FREE(2)+newline (js-default); inline-mode FREE(2); delimiter alphabet FREE(3); CTX scaffolds "
+             "(block contexts: 2 free characters on the block unit; inline contexts: 1 free character); nesting scaffolds with symbolic maxNesting 1..4",
+    "thorough": "block unit FREE(4), pipeline FREE(3), inline-mode FREE(3), delimiter alphabet FREE(4), CTX with 2 free characters through the whole pipeline, x {js-default, commonmark}",
 }
 OUTSIDE = "delimiter interactions needing more than 5 characters; linkify core rule (library absent); documents beyond the scaffolds"
 ASSUMPTIONS = ["sources are CR/NUL free (normalize, verified in C17, is skipped)",
@@ -39,6 +39,7 @@ def _run(params, values):
     md = get_md(params["cfg"])
     src = build_doc(params["scaffold"], values)
     inline_mode = params["mode"] == "inline"
+    block_mode = params["mode"] == "block"
     recs = []
     saved = None
     if "mn" in values:
@@ -46,7 +47,12 @@ def _run(params, values):
         md.options["maxNesting"] = values["mn"]
     try:
         try:
-            toks, env = pipeline_nn(md, src, inline_mode=inline_mode)
+            if block_mode:
+                from ..mdutil import block_parse
+
+                toks, env = block_parse(md, src)
+            else:
+                toks, env = pipeline_nn(md, src, inline_mode=inline_mode)
         except Exception as e:
             return [exc_record(e, params["mode"])], "raised"
     finally:
@@ -59,6 +65,10 @@ def _run(params, values):
         else:
             check_stream(toks[0].children or [], where="inline", top_block=False, recs=recs)
             check_stream(toks, where="top", top_block=None, recs=recs, depth_limit=0)
+    elif block_mode:
+        # block unit: inline containers have no children yet (the inline parser has not run)
+        check_stream(toks, where="top", top_block=True, recs=recs, depth_limit=0)
+        recs[:] = [r for r in recs if r["key"] != "children-missing"]
     else:
         check_stream(toks, where="top", top_block=True, recs=recs)
     check_tree(toks, recs)
@@ -92,12 +102,19 @@ def jobs(tier, seed):
     jobs = []
     names = "abcdefgh"
     spec_nocr = {n: dict(NOCR) for n in names}
-    kb = 3 if tier == "quick" else 4
-    ki = 2 if tier == "quick" else 3
-    kd = 4 if tier == "quick" else 5
-    for cfg in ((JS,) if tier == "quick" else (JS, CM)):
-        _sharded(jobs, {"cfg": cfg, "mode": "parse", "scaffold": free_doc(kb, "\n")}, weight=10, spec=spec_nocr)
-        _sharded(jobs, {"cfg": cfg, "mode": "inline", "scaffold": free_doc(ki)}, weight=8, spec=spec_nocr)
+    if tier == "quick":
+        # block level on the block unit (cheap), inline level on the inline unit, the full pipeline on FREE(2)
+        for suffix in ("\n", ""):
+            _sharded(jobs, {"cfg": JS, "mode": "block", "scaffold": free_doc(3, suffix)}, weight=10, spec=spec_nocr)
+        _sharded(jobs, {"cfg": JS, "mode": "parse", "scaffold": free_doc(2, "\n")}, weight=10, spec=spec_nocr)
+        _sharded(jobs, {"cfg": JS, "mode": "inline", "scaffold": free_doc(2)}, weight=8, spec=spec_nocr)
+        kd = 3
+    else:
+        for cfg in (JS, CM):
+            _sharded(jobs, {"cfg": cfg, "mode": "block", "scaffold": free_doc(4, "\n")}, weight=10, spec=spec_nocr)
+            _sharded(jobs, {"cfg": cfg, "mode": "parse", "scaffold": free_doc(3, "\n")}, weight=30, spec=spec_nocr)
+            _sharded(jobs, {"cfg": cfg, "mode": "inline", "scaffold": free_doc(3)}, weight=30, spec=spec_nocr)
+        kd = 4
     # delimiter runs
     dspec = {n: {"alphabet": DELIMS} for n in names}
     for first in DELIMS:
@@ -105,14 +122,19 @@ def jobs(tier, seed):
         sp["a"] = {"alphabet": first}
         jobs.append({"harness": "stream", "params": {"cfg": JS, "mode": "inline", "scaffold": free_doc(kd), "spec": sp,
                                                       "name": f"delims-{first!r}"},
-                     "weight": 9, "cpu_cap": 900, "wall_cap": 1500})
+                     "weight": 9, "cpu_cap": 900 if tier == "quick" else 3000, "wall_cap": 4000})
     for sc in S.ctx_scaffolds(tier):
         for cfg in sc["cfgs"]:
-            mode = "inline" if sc.get("mode") == "inline_render" else "parse"
+            if sc.get("mode") == "inline_render":
+                mode = "inline"
+            else:
+                # quick: block contexts on the block unit; thorough: through the whole pipeline (children included)
+                mode = "block" if tier == "quick" else "parse"
             base = {"cfg": cfg, "mode": mode, "scaffold": sc["scaffold"], "name": sc["name"], "maxnest": sc.get("maxnest")}
             if sc.get("shard"):
                 _sharded(jobs, base, weight=sc.get("weight", 3), spec=sc.get("spec", {}))
             else:
                 base["spec"] = sc.get("spec", {})
-                jobs.append({"harness": "stream", "params": base, "weight": sc.get("weight", 3), "cpu_cap": 900, "wall_cap": 1500})
+                jobs.append({"harness": "stream", "params": base, "weight": sc.get("weight", 3),
+                             "cpu_cap": 900 if tier == "quick" else 3000, "wall_cap": 4000})
     return jobs
